@@ -632,6 +632,55 @@ pub fn stress(seed: u64, nruns: usize, rep: &mut Report) {
     }
 }
 
+/// `rgmon c07-miri`: a few unscheduled walks of a tiny tree with 2-3 real
+/// threads, meant to be run under Miri (its scheduler, weak-memory emulation
+/// and data-race detector examine the atomics / deque protocol itself).
+pub fn miri_walks(seed: u64) -> Report {
+    let mut rep = Report::new();
+    let mut rng = Rng::new(seed);
+    let mut t = Tree::default();
+    t.nodes.push(Node { path: "d".into(), kind: Kind::Dir });
+    t.nodes.push(Node { path: "d/e".into(), kind: Kind::Dir });
+    t.nodes.push(Node { path: "d/e/f".into(), kind: Kind::File(1) });
+    t.nodes.push(Node { path: "d/g".into(), kind: Kind::File(1) });
+    t.nodes.push(Node { path: "h".into(), kind: Kind::File(1) });
+    let (private, base) = treegen::fresh_dir("c07m", seed & 0xffff);
+    if t.materialise(&base).is_err() {
+        rep.inconclusive += 1;
+        return rep;
+    }
+    let roots = vec![String::new()];
+    let expected = expected_entries(&base, &roots);
+    for round in 0..2 {
+        let workers = 2 + (rng.below(2));
+        let quit_at = if round == 1 { Some(rng.below(3)) } else { None };
+        let visited: Arc<Mutex<Vec<(usize, String)>>> = Arc::new(Mutex::new(vec![]));
+        let base2 = base.clone();
+        let v2 = visited.clone();
+        builder(&base, &roots, workers).build_parallel().run(|| {
+            let visited = v2.clone();
+            let base = base2.clone();
+            Box::new(move |r| {
+                let mut v = visited.lock().unwrap();
+                let idx = v.len();
+                if let Ok(d) = r {
+                    let p = d.path().strip_prefix(&base).unwrap_or(d.path()).to_string_lossy().into_owned();
+                    v.push((0, p));
+                }
+                if quit_at == Some(idx) { WalkState::Quit } else { WalkState::Continue }
+            })
+        });
+        rep.evaluations += 1;
+        rep.count("miri_walks");
+        let spec = RunSpec { tree: t.clone(), roots: roots.clone(), workers, policy: Policy::Uniform, sched_seed: seed, quit_at };
+        let out = RunOutcome { visited: visited.lock().unwrap().clone(), steps: 0, decisions_hash: mix(&[seed, round as u64]), steals: 0, idle_transitions: 0, quit_with_work_queued: 0 };
+        rep.nontrivial(out.decisions_hash);
+        judge(&spec, &expected, &out, &mut rep);
+    }
+    let _ = fs::remove_dir_all(&private);
+    rep
+}
+
 /// Parent: shard the scheduled runs over child processes.
 pub fn run(ctx: &Ctx) -> Report {
     let total = ctx.cases(3000, 150_000);
